@@ -37,6 +37,17 @@ namespace ftp
 
 using namespace ftp::detail;
 
+/* A command argument must not contain line terminators, otherwise the part
+ * after the terminator would be interpreted by the server as another command.
+ */
+static void check_argument(std::string_view argument)
+{
+    if (argument.find_first_of("\r\n") != std::string_view::npos)
+    {
+        throw ftp_exception("Invalid command argument. CR and LF characters are not allowed.");
+    }
+}
+
 client::client(transfer_mode mode,
                transfer_type type,
                ssl::context_ptr && ssl_context,
@@ -65,6 +76,12 @@ replies client::connect(std::string_view hostname,
                         const std::optional<std::string_view> & username,
                         std::string_view password)
 {
+    if (username)
+    {
+        check_argument(username.value());
+        check_argument(password);
+    }
+
     control_connection_.connect(hostname, port);
 
     notify_connected(hostname, port);
@@ -257,6 +274,8 @@ file_list_reply client::get_file_list(const std::optional<std::string_view> & pa
 replies client::rename(std::string_view from_path, std::string_view to_path)
 {
     replies replies;
+
+    check_argument(to_path);
 
     std::string command = make_command("RNFR", from_path);
 
@@ -495,6 +514,8 @@ reply client::process_command(std::string_view command, replies & replies)
 
 reply client::process_login(std::string_view username, std::string_view password, replies & replies)
 {
+    check_argument(password);
+
     std::string command = make_command("USER", username);
 
     reply reply = process_command(command, replies);
@@ -1070,6 +1091,8 @@ std::string client::make_command(std::string_view command, const std::optional<s
 
     if (argument)
     {
+        check_argument(argument.value());
+
         result.append(" ");
         result.append(argument.value());
     }
